@@ -277,7 +277,34 @@ def _worker2(cases, tmp):
     return out
 
 
+def check_known_classes(ctx):
+    """recorded defects of the unchanged tree, re-evaluated on the real code every run (the generator avoids them: Guard F16)"""
+    from xdoctest import exceptions, parser
+    for e in common.load_known_findings('C01'):
+        doc = e['witness']['doctest']
+        try:
+            parser.DoctestParser().parse(doc)
+            still = False
+        except exceptions.DoctestParseError:
+            still = True
+        ctx.evaluations += 1
+        if still:
+            ctx.known_finding('%s %s; e.g. doctest=%r' % (e['id'], e['what'], doc))
+        else:
+            ctx.notes.append('recorded finding %s no longer reproduces' % e['id'])
+    # the same layout without the want directly behind it, and with '...' continuation prompts, must work
+    for doc in [">>> print('o')\n>>> z = \"{}|{}\".format(1,\n>>>     '''first\n  body\nlast''')\n>>> y = 1\no\n",
+                ">>> print('o')\n>>> z = \"{}|{}\".format(1,\n...     '''first\n  body\nlast''')\no\n"]:
+        ctx.evaluations += 1
+        try:
+            parser.DoctestParser().parse(doc)
+        except Exception as ex:
+            ctx.violation('execution', {'what': 'a neighbour of the recorded class F16 does not parse: %s' % ex, 'doctest': doc, 'enabled': None,
+                          'theorem_or_correspondence': 'C01 known class boundary'}, True)
+
+
 def run(ctx):
+    check_known_classes(ctx)
     cases = gen_cases(ctx)
     chunks = [cases[i:i + 60] for i in range(0, len(cases), 60)]
     results = [r for ch in common.pmap(_worker, chunks) for r in ch]
@@ -305,7 +332,8 @@ def run(ctx):
                  'non-trivial = more than one statement')
     ctx.sample({'doctest': cases[5][0]})
     ctx.sample({'doctest': cases[-3][0], 'enabled': cases[-3][2]})
-    ctx.assumptions += ['H-exec-seq: exec of consecutive slices in one dict equals exec of the whole program (CPython); checked here, not proved',
+    ctx.assumptions += ['Guard F16: the generator puts no want directly behind a statement whose \'>>>\'-prompted continuation line opens a string that goes on over unprefixed lines (recorded finding, re-evaluated every run)',
+                        'H-exec-seq: exec of consecutive slices in one dict equals exec of the whole program (CPython); checked here, not proved',
                         'REPL echoes of expression statements (sys.displayhook) are not writes of the code and are removed before comparing']
 
 
